@@ -214,13 +214,63 @@ class Body:
                 stack.append(p)
         return seen
 
+    def const_effects(self):
+        """Per block: the effect of its statements/terminator on the *tracked* locals - locals that
+        some switch tests directly and that are assigned a literal somewhere (the temporaries of
+        `matches!`, `a && b` used as a value, `let flag = if .. { true } else { false }`).
+        block -> {local: value or None (unknown after this block)}; plus the set of tracked locals."""
+        if getattr(self, "_const_eff", None) is not None:
+            return self._const_eff
+        switched = set()
+        for b in range(self.n):
+            t = self.blocks[b]["t"]
+            if t["k"] == "switch":
+                pl = t["d"].get("mv") or t["d"].get("cp")
+                if pl and not pl.get("p"):
+                    switched.add(pl["l"])
+        lit = set()
+        for b in range(self.n):
+            for st in self.stmts(b):
+                d, r = st["d"], st["r"]
+                if d["l"] in switched and not d.get("p") and r["k"] == "use" and isinstance(r.get("a"), dict) and "c" in r["a"] and isinstance(r["a"].get("v"), (int, bool)):
+                    lit.add(d["l"])
+        tracked = switched & lit
+        # a local whose address is taken can change behind our back: do not track it
+        for b in range(self.n):
+            for st in self.stmts(b):
+                r = st["r"]
+                if r["k"] in ("ref", "rawptr") and isinstance(r.get("p"), dict) and r["p"].get("l") in tracked:
+                    tracked.discard(r["p"]["l"])
+        eff = {}
+        if tracked:
+            for b in range(self.n):
+                e = {}
+                for st in self.stmts(b):
+                    d, r = st["d"], st["r"]
+                    if d["l"] in tracked:
+                        if not d.get("p") and r["k"] == "use" and isinstance(r.get("a"), dict) and "c" in r["a"] and isinstance(r["a"].get("v"), (int, bool)):
+                            e[d["l"]] = int(r["a"]["v"])
+                        else:
+                            e[d["l"]] = None
+                t = self.blocks[b]["t"]
+                if t["k"] == "call" and t.get("dest") and t["dest"]["l"] in tracked:
+                    e[t["dest"]["l"]] = None
+                if e:
+                    eff[b] = e
+        self._const_eff = (eff, tracked)
+        return self._const_eff
+
     def path_to(self, starts, targets, removed_edges=(), removed_blocks=()):
-        """Shortest block path from any start to any target avoiding removed edges."""
+        """Shortest block path from any start to any target avoiding removed edges. Paths that are
+        infeasible for one of two simple reasons are not reported: two switches on the same pure
+        condition deciding differently, and a switch on a local that holds a literal assigned
+        earlier on the same path taking the other edge."""
         removed_edges = set(removed_edges)
         targets = set(targets)
         from collections import deque
 
         corr = self.correlated_switches()
+        ceff, tracked = self.const_effects()
         prev = {}
         dq = deque()
         for s in starts:
@@ -239,15 +289,34 @@ class Body:
                     st = prev[st]
                 return list(reversed(path))
             k = corr.get(b)
+            base = dec
+            e = ceff.get(b)
+            if e:
+                base = frozenset(x for x in dec if not (x[0] == "=" and x[1] in e)) | frozenset(("=", l, v) for l, v in e.items() if v is not None)
+            known = None
+            t = self.blocks[b]["t"]
+            if tracked and t["k"] == "switch":
+                pl = t["d"].get("mv") or t["d"].get("cp")
+                if pl and not pl.get("p") and pl["l"] in tracked:
+                    for x in base:
+                        if x[0] == "=" and x[1] == pl["l"]:
+                            known = x[2]
+            vals = [v for v, _ in t["targets"]] if t["k"] == "switch" else []
             for d, lab in self.out_edges(b):
                 if (b, d) in removed_edges or d in removed_blocks:
                     continue
-                nd = dec
+                if known is not None:
+                    if lab == "otherwise":
+                        if known in vals:
+                            continue
+                    elif lab != known:
+                        continue
+                nd = base
                 if k is not None:
                     # a correlated pure condition must be decided the same way every time
-                    if any(kk == k and ll != lab for kk, ll in dec):
+                    if any(x[0] != "=" and x[0] == k and x[1] != lab for x in base):
                         continue
-                    nd = dec | {(k, lab)}
+                    nd = base | {(k, lab)}
                 ns = (d, nd)
                 if ns in prev:
                     continue
